@@ -622,7 +622,7 @@ fn gen_targeted(ops: &mut Vec<String>, seed: u64, ncases: u64) {
             }
             let ps = g.st.fdl.inspect_token_ring().previous_station();
             let ns = g.st.fdl.inspect_token_ring().next_station();
-            match rng.below(16) {
+            match rng.below(19) {
                 0 | 1 => {
                     g.deliver(&token(ts, ps));
                 }
@@ -672,6 +672,65 @@ fn gen_targeted(ops: &mut Vec<String>, seed: u64, ncases: u64) {
                         if let Some(tx) = g.poll() {
                             react(&mut g, &mut rng, &ring, &tx, false);
                         }
+                    }
+                }
+                16 | 17 | 18 => {
+                    // hand the token over; the first request that expects a reply is answered with a chosen,
+                    // mostly inadmissible, telegram (wrong destination incl. broadcast, wrong source, wrong kind)
+                    if napps > 0 {
+                        let a = random_answers(&mut rng, ts, &ring, 2);
+                        g.op(format!("st.script {} {}", rng.below(napps as u64), a.join(" ")));
+                    }
+                    g.rx(&token(ts, ps));
+                    g.now += g.bits(33) + 1;
+                    for _ in 0..40 {
+                        if g.st.dead {
+                            break;
+                        }
+                        g.now += (slot_t / 4).max(1);
+                        let Some(tx) = g.poll() else { continue };
+                        let req = match Telegram::deserialize(&tx) {
+                            Some(Ok((Telegram::Data(d), _))) => match d.h.fc {
+                                FunctionCode::Request { req, .. } if req.expects_reply() => Some((d.h.da, d.h.dsap, d.h.ssap)),
+                                _ => None,
+                            },
+                            _ => None,
+                        };
+                        let Some((peer, dsap, ssap)) = req else {
+                            react(&mut g, &mut rng, &ring, &tx, false);
+                            continue;
+                        };
+                        g.now += g.bits(11 * tx.len() as u64) + g.bits(11 + rng.below(30));
+                        let resp = |da: u8, sa: u8, pdu: &[u8]| {
+                            enc(
+                                &DataTelegramHeader {
+                                    da,
+                                    sa,
+                                    dsap: ssap,
+                                    ssap: dsap,
+                                    fc: FunctionCode::Response { state: ResponseState::Slave, status: ResponseStatus::DataLow },
+                                },
+                                pdu,
+                            )
+                        };
+                        let pdu = rng.bytes_below(5);
+                        let other = *rng.pick(&strangers);
+                        let bytes = match rng.below(10) {
+                            0 | 1 => resp(ts, peer, &pdu),
+                            2 | 3 => resp(127, peer, &pdu),
+                            4 => resp(126, peer, &pdu),
+                            5 => resp(other, peer, &pdu),
+                            6 => resp(ts, other, &pdu),
+                            7 => vec![0xE5],
+                            8 => status_req(ts, peer),
+                            _ => token(ts, peer),
+                        };
+                        g.rx(&bytes);
+                        g.now += g.bits(11 * bytes.len() as u64) + 1;
+                        g.poll();
+                        g.now += g.bits(34);
+                        g.poll();
+                        break;
                     }
                 }
                 _ => {
